@@ -495,6 +495,43 @@ func propC03(c *Ctx) {
 	}
 }
 
+// separatorVariantDefects: single-defect sentences (one word too many / too few, an unknown token, a
+// wrong checksum, none) with compatibility spaces as separators — every code point whose NFKD form is
+// U+0020, one at a time; one separator replaced, or all of them.  The outcome must be the one the
+// NFKD-normalised sentence gets: a validator that counts or splits before it normalises sees another
+// number of tokens (wrong error kind, or an index computed from the wrong count).
+func (c *Ctx) separatorVariantDefects(li, n int, toks, words []string) {
+	l := int64(langVals[li])
+	buildPreimages()
+	for si, sp := range nfkdSpaces {
+		if c.quick && (si+li+n/4)%7 != int(c.rep.Seed%7) {
+			continue
+		}
+		with := func(t []string, all bool) string {
+			if all {
+				return strings.Join(t, sp)
+			}
+			k := 1 + c.rng.Intn(len(t)-1)
+			return strings.Join(t[:k], " ") + sp + strings.Join(t[k:], " ")
+		}
+		for _, all := range []bool{false, true} {
+			extra := append(append([]string(nil), toks...), words[c.rng.Intn(2048)])
+			c.chk("separator-variant:count-only", l, with(extra, all))
+			c.chk("separator-variant:count-only", l, with(toks[:len(toks)-1], all))
+			// a legal number of U+0020-separated tokens with surplus words attached by the variant
+			c.chk("separator-variant:count-only", l, strings.Join(toks, " ")+sp+words[c.rng.Intn(2048)])
+			c.chk("separator-variant:count-only", l, strings.Join(toks, " ")+sp+words[c.rng.Intn(2048)]+sp+words[c.rng.Intn(2048)]+sp+words[c.rng.Intn(2048)])
+			u := append([]string(nil), toks...)
+			u[c.rng.Intn(len(u))] = "qqzz"
+			c.chk("separator-variant:unknown-only", l, with(u, all))
+			w := append([]string(nil), toks...)
+			w[0], w[len(w)-1] = w[len(w)-1], w[0]
+			c.chk("separator-variant:checksum-only", l, with(w, all))
+			c.chk("separator-variant:valid", l, with(toks, all))
+		}
+	}
+}
+
 func propC15(c *Ctx) {
 	r := c.rep
 	r.Rule = "single-defect sentences over all languages and word counts: wrong count only (each count 1..36 of list words), unknown token only (each position, acceptable counts), bad checksum only; errors.Is against the three exported sentinels and the exact message text compared with the model (`err unknown <token> <pos>`) and the specification's classification. Non-trivial = distinct ops."
@@ -612,34 +649,7 @@ func propC15(c *Ctx) {
 					r.violate(Violation{Kind: "property", Class: "checksum-only", Op: fmt.Sprintf("chk %d %s", l, hx([]byte(strings.Join(t, " ")))), Impl: impl, Detail: "want ErrChecksumIncorrect"})
 				}
 			}
-			// the same defects with compatibility spaces as separators (every code point whose NFKD form is
-			// U+0020, one at a time; one separator replaced, or all of them): the error must be the one the
-			// NFKD-normalised sentence gets — a validator that splits before it normalises counts differently
-			buildPreimages()
-			for si, sp := range nfkdSpaces {
-				if c.quick && (si+li+n/4)%7 != int(r.Seed%7) {
-					continue
-				}
-				with := func(t []string, all bool) string {
-					if all {
-						return strings.Join(t, sp)
-					}
-					k := 1 + c.rng.Intn(len(t)-1)
-					return strings.Join(t[:k], " ") + sp + strings.Join(t[k:], " ")
-				}
-				for _, all := range []bool{false, true} {
-					extra := append(append([]string(nil), toks...), words[c.rng.Intn(2048)])
-					c.chk("separator-variant:count-only", l, with(extra, all))
-					c.chk("separator-variant:count-only", l, with(toks[:len(toks)-1], all))
-					u := append([]string(nil), toks...)
-					u[c.rng.Intn(len(u))] = "qqzz"
-					c.chk("separator-variant:unknown-only", l, with(u, all))
-					w := append([]string(nil), toks...)
-					w[0], w[len(w)-1] = w[len(w)-1], w[0]
-					c.chk("separator-variant:checksum-only", l, with(w, all))
-					c.chk("separator-variant:valid", l, with(toks, all))
-				}
-			}
+			c.separatorVariantDefects(li, n, toks, words)
 			impl, _ := c.chk("valid", l, strings.Join(toks, " "))
 			if impl != "ok" {
 				r.violate(Violation{Kind: "property", Class: "valid", Op: fmt.Sprintf("chk %d %s", l, hx([]byte(strings.Join(toks, " ")))), Impl: impl, Detail: "valid sentence must give nil"})
@@ -761,6 +771,45 @@ func propC08(c *Ctx) {
 			if got := implChk(l, string(unhx(impl[3:]))); got != "ok" {
 				r.violate(Violation{Kind: "property", Class: "index-sweep", Op: fmt.Sprintf("chk %d %s", l, impl[3:]), Impl: got,
 					Detail: fmt.Sprintf("validation does not map word %d back to index %d", v, v)})
+			}
+		}
+		// the tables after REJECTED validations whose unknown token is a typo of a list word (a suffix, a
+		// changed last letter, a prefix): an error path that builds suggestions in place, or caches near
+		// misses, must not disturb what index i emits — the start of the table is swept again
+		for k := 0; k < 12; k++ {
+			w := canon[c.rng.Intn(2048)]
+			rs := []rune(w)
+			typo := w + "x"
+			switch k % 3 {
+			case 1:
+				typo = string(rs[:len(rs)-1]) + "q"
+			case 2:
+				typo = "x" + w
+			}
+			e := make([]byte, 16)
+			c.rng.Read(e)
+			toks := strings.Split(c.specSentence(l, e), sepOf(li))
+			toks[c.rng.Intn(len(toks))] = typo
+			implChk(l, strings.Join(toks, " "))
+			r.count("after-typo:rejected-validation")
+		}
+		for v := 0; v < 2048; v++ {
+			if v >= 96 && v%37 != 0 {
+				continue
+			}
+			e := make([]byte, 16)
+			c.rng.Read(e[2:])
+			setGroup(e, 0, v)
+			impl := implEnc(l, e)
+			r.count("after-typo:index-sweep")
+			w := ""
+			if strings.HasPrefix(impl, "ok ") {
+				w = strings.Split(string(unhx(impl[3:])), sepOf(li))[0]
+			}
+			if w != canon[v] {
+				r.violate(Violation{Kind: "impl≠spec", Class: "after-typo:index-sweep", Op: fmt.Sprintf("after rejected validations with typos of list words: enc %d %s", l, hx(e)), Impl: impl,
+					Spec: "canonical word " + hx([]byte(canon[v])), Detail: fmt.Sprintf("word %d is %q, canonical is %q", v, w, canon[v])})
+				break
 			}
 		}
 		// model list() agrees with the canonical list on a sample (all in thorough)
